@@ -119,10 +119,12 @@ class BorderUtil:
                             total_pad_length - left_pad_length
                         )
 
+                    # The line is formatted again when it is written: what is
+                    # literal text by now must stay literal
                     line += io.format(
                         cell_format.format(padding_left + cell_line + padding_right),
                         cell_style,
-                    )
+                    ).replace("<", "\\<")
                     if col < nb_columns - 1:
                         line += border_vc_char
                     else:
